@@ -176,7 +176,7 @@ theorem tie_skel_handleHotRestartAck : Gen.Skel.handleHotRestartAck = [
   "}",
   "s.listener.mu.Lock()",
   "defer s.listener.mu.Unlock()",
-  "if epochID == s.listener.epoch {",
+  "if epochID == s.listener.epoch && s.listener.state == hotRestartState && s.state == hotRestartState {",
   "s.listener.hotRestartAckCount--",
   "s.state = hotRestartDoneState",
   "}",
